@@ -206,7 +206,7 @@ pub fn run(args: &Args) {
     // compression types x levels x file size families
     let mut combos: Vec<(String, Option<i64>)> = vec![("none".into(), None)];
     for l in if thorough { (0..=9).collect::<Vec<i64>>() } else { vec![0, 6, 9] } { combos.push(("gzip".into(), Some(l))); combos.push(("xz".into(), Some(l))); }
-    for l in if thorough { (1..=22).collect::<Vec<i64>>() } else { vec![1, 9, 19] } { combos.push(("zstd".into(), Some(l))); }
+    for l in if thorough { (1..=22).collect::<Vec<i64>>() } else { vec![1, 9, 19, 22] } { combos.push(("zstd".into(), Some(l))); }
     for l in if thorough { (1..=9).collect::<Vec<i64>>() } else { vec![1, 5, 9] } { combos.push(("bzip2".into(), Some(l))); }
     combos.push(("gzip".into(), None));
     let size_sets: Vec<Vec<usize>> = vec![
